@@ -43,6 +43,8 @@ def make_case(rng, tier):
         c['x'] = rand_coeffs(rng, (D, P, rng.randint(1, 5), rng.randint(1, 5)), -2, 2)      # tall / wide / square
     elif kind in ('inv', 'det', 'logdet', 'trace'):
         c['x'] = ops.gen_square(rng, D, P, n, 'spd' if kind == 'logdet' else 'general')
+        if kind == 'det' and rng.random() < 0.25:
+            c['x'] = ops._gen_det_singular(rng, D, P, tier)[0]['v']        # singular zeroth coefficient: det is smooth there too
     elif kind == 'solve':
         sub = rng.choice(['uu', 'uu', 'au', 'ua'])
         k = rng.randint(1, 3)
@@ -146,7 +148,11 @@ def check(ctx, c):
                 term = term * X[i, perm[i]]
             det = det + term
         if kind == 'det':
-            got = algopy.det(UTPM(x.copy()))
+            try:
+                got = algopy.det(UTPM(x.copy()))
+            except Exception as ex:
+                return 'det-exception: raised %s (zeroth coefficients with determinants %s)' % (
+                    type(ex).__name__ + ':' + str(ex)[:60], [round(float(np.linalg.det(x[0, p])), 6) for p in range(P)])
             if not close(got.data, det.data, 1e-8):
                 return 'det: differs from the Leibniz formula in Taylor arithmetic, max diff %s' % maxdiff(got.data, det.data)
         else:
@@ -195,8 +201,12 @@ def dtype_case(rng, tier):
         c['x'] = arr({'m': (n, k), 'v': (k,)}[sub[0]], kinds[0] == 'u', dts[0] == 'c')
         c['y'] = arr({'m': (k, m), 'v': (k,)}[sub[1]], kinds[1] == 'u', dts[1] == 'c')
     elif kind == 'outer':
-        c['x'] = arr((n,), kinds[0] == 'u', dts[0] == 'c')
-        c['y'] = arr((rng.randint(1, 3),), kinds[1] == 'u', dts[1] == 'c')
+        # operands of any rank (numpy.outer flattens them): row / column vectors and matrices next to plain vectors
+        def oshape(k):
+            return rng.choice([(k,), (k,), (1, k), (k, 1), (2, k)])
+        c['dts'] = dts = rng.choice(['rr', 'rr', dts])
+        c['x'] = arr(oshape(n), kinds[0] == 'u', dts[0] == 'c')
+        c['y'] = arr(oshape(rng.randint(1, 3)), kinds[1] == 'u', dts[1] == 'c')
     elif kind == 'solve':
         c['x'] = arr(None, kinds[0] == 'u', dts[0] == 'c', square=True)
         c['y'] = arr((n, rng.randint(1, 2)), kinds[1] == 'u', dts[1] == 'c')
